@@ -21,7 +21,7 @@ DEV = "D_stream_response_timeout_ignored"
 META = {
     "category": "model_checking",
     "text": "TLC explores the stream transport (one action per select! arm of Transport::run, the slot table with ID = slot index, timers, an adversarial peer that may send any message of an alphabet at any time, end the stream or stop reading) and the datagram transport (attempts, random IDs, receive loop, retries) and checks OwnAnswer, AtMostOnce, NoCross, SlotTableSound, NothingLost, the timer/retry budget and completion (liveness under fairness of the task and the clock). Every transition of the explored macro-step state graphs is replayed into the real stream::Connection/Transport and dgram::Connection over in-memory sockets on a paused clock, comparing requests written and the outcome of every get_response() after every step; recorded runs with 50 concurrent requests against a seeded hostile peer are validated by TLC against the specification with the invariants evaluated at every step.",
-    "note": "Trusted: TLC, the transcription in ClientStream.tla/ClientDgram.tla, the harness (in-memory sockets, interposed CLOCK_MONOTONIC so that std::time::Instant follows the paused tokio clock). Errors are compared as a class, not by value. ClientCompose.tla models multi_stream (connect phase, close, back-off, re-issue; completion no later than the response timeout after submission) and dgram_stream (TCP iff TC, the truncated answer is never delivered) over abstract stream connections; its macro-step graph is checked by TLC and replayed into the real multi_stream / dgram_stream over a mock connector. Not covered: multi-response (XFR) requests on the stream transport, redundant / load_balancer, two multi_stream requests whose back-offs end in the same tick (order is random in the code), blocked (pending) writes, more than 65535/2 outstanding requests, real sockets/TLS. demux_reply restarts the response timer for every message, also for unknown IDs: bounded in the model (MaxFrames); see report. Open finding D_stream_response_timeout_ignored: the configured response timeout is never in force for ordinary requests (19 s default is used).",
+    "note": "Trusted: TLC, the transcription in ClientStream.tla/ClientDgram.tla, the harness (in-memory sockets, interposed CLOCK_MONOTONIC so that std::time::Instant follows the paused tokio clock). Errors are compared as a class, not by value. ClientCompose.tla models multi_stream (connect phase, close, back-off, re-issue; completion no later than the response timeout after submission) and dgram_stream (TCP iff TC, the truncated answer is never delivered) over abstract stream connections; its macro-step graph is checked by TLC and replayed into the real multi_stream / dgram_stream over a mock connector. The redundant / load_balancer leg (upstream order and probe timer left open, burst limits exact) is model-checked and bound by validating recorded runs of the real balancers over scripted upstreams (0..3 upstreams, all result kinds, burst limits; a panicking request future is an observation no rule accepts). Not covered: multi-response (XFR) requests on the stream transport, response-time estimation / fairness of the balancers, two multi_stream requests whose back-offs end in the same tick (order is random in the code), blocked (pending) writes, more than 65535/2 outstanding requests, real sockets/TLS. demux_reply restarts the response timer for every message, also for unknown IDs: bounded in the model (MaxFrames); see report. Open finding D_stream_response_timeout_ignored: the configured response timeout is never in force for ordinary requests (19 s default is used).",
     "technique": "TLA+ specs (ClientStream.tla, ClientDgram.tla) + TLC exhaustive (safety, liveness); spec->impl behaviour replay on a virtual clock; impl->spec trace validation",
     "design_ref": "DESIGN.md §4 C15",
 }
@@ -129,6 +129,55 @@ def _compose(ctx, thorough):
         ctx.replay_cases("replay_client", cases, label="compose-" + mode)
 
 
+BALANCE_ACTIONS = ["RequestSubmit", "UpstreamAsked", "UpstreamResult", "RequestDone", "ClockTick"]
+
+
+def _balance(ctx, thorough):
+    """redundant / load_balancer leg of ClientCompose: TLC on the spec, then
+    recorded runs of the real balancers over scripted upstreams validated
+    against it (the order in which upstreams are tried is random in the code,
+    so this leg is bound by trace validation, not by replay)."""
+    runs = [("MC_ClientBalance_lb_thorough" if thorough else "MC_ClientBalance_lb", True),
+            ("MC_ClientBalance_lb1", False), ("MC_ClientBalance_red", False),
+            ("MC_ClientBalance_lb0", False)]
+    for cfg, cov in runs:
+        mc = ctx.tlc("MC_ClientBalance", cfg, workers=8, label="mc-" + cfg[3:], coverage=cov,
+                     timeout=3000)
+        ctx.require_ok(mc, cfg)
+        if cov:
+            ctx.require_actions(mc, BALANCE_ACTIONS)
+    live = ctx.tlc("MC_ClientBalance", "MC_ClientBalance_live", workers=4, label="mc-balance-live",
+                   coverage=False)
+    ctx.require_ok(live, "MC_ClientBalance (liveness: BCompletion)")
+    n_traces = 4 if thorough else 2
+    nscen = 400 if thorough else 120
+    for i in range(n_traces):
+        tr = os.path.join(ctx.work, "balance-%d.ndjson" % i)
+        rc, out, err, _ = ctx.run_bin("record_client", ["balance", tr, str(ctx.seed * 100 + 50 + i),
+                                                        str(nscen)])
+        if rc != 0:
+            raise vlib.ToolError("record_client balance failed: " + (err or out)[-500:])
+        ok, res, rej = ctx.validate_trace("Trace_ClientBalance", "Trace_ClientBalance", tr,
+                                          label="balance-trace-%d" % i)
+        ctx.traces += 1
+        if not ok:
+            ctx.violation("recorded redundant/load_balancer run is not a behaviour of ClientCompose.tla",
+                          rej if rej is not None else {"violated": res.violated})
+        if i == 0:
+            bad = os.path.join(ctx.work, "balance-bad.ndjson")
+            lines = open(tr).read().splitlines()
+            for j, l in enumerate(lines):
+                o = json.loads(l)
+                if o.get("ev") == "done" and o.get("ok") and o.get("src", 0) > 0:
+                    o["src"] = o["src"] % 3 + 1
+                    lines[j] = json.dumps(o)
+                    break
+            open(bad, "w").write("\n".join(lines) + "\n")
+            ok2, _, _ = ctx.validate_trace("Trace_ClientBalance", "Trace_ClientBalance", bad,
+                                           label="balance-trace-selftest")
+            ctx.selftest("corrupted balancer trace is rejected by Trace_ClientBalance", not ok2)
+
+
 def _validate(ctx, path, label):
     """The trace must be a behaviour of the spec under the open deviations,
     or of the ideal spec (the defect may have been repaired)."""
@@ -187,6 +236,7 @@ def run(ctx):
     _dgram_model(ctx, thorough)
     _replay(ctx, thorough)
     _compose(ctx, thorough)
+    _balance(ctx, thorough)
     _traces(ctx, thorough)
     ctx.assume("the peer's messages come from a finite alphabet (per ID and question: answer, error with question, header-only with/without error code, error with empty question but records, query, answer with edns-tcp-keepalive); a message shorter than a header, EOF between and inside frames, and a peer that stops reading end the stream")
     ctx.assume("time is a tick counter; one tick = 10 s of virtual time in the harness; the code's `elapsed > response_timeout` is decided on whole ticks by configuring RT ticks minus half a tick")
@@ -194,4 +244,5 @@ def run(ctx):
     ctx.assume("errors are compared as a class (ok / error), not by value")
     ctx.assume("dgram: successive attempts draw different random IDs (a case in which they collide is re-run)")
     ctx.assume("multi_stream back-off (random, below 2^n s, at most 60 s) is shorter than one tick (100 s for multi_stream cases; 10 s and at most three failures for dgram_stream cases), so a Delay ends with the next tick")
+    ctx.assume("balancers: every upstream that is asked hands back one result (assume/guarantee); which usable upstream is tried next and after how many ticks the probe timer fires is left open")
     ctx.assume("single-response requests only; no caller drops its request future before it resolves")
